@@ -55,6 +55,15 @@ def gen(spec, lv):
         return t
 
     head, lt, hopt, body, before, after = spec
+    if head == "two":
+        # several loops in sequence that reuse the variable name with other values (each loop is unrolled over its own values)
+        L += ["for %s i in [%s, %s]" % (lt, lv.int(), lv.int()) if lt == "int" else "for %s i in [%s, %s]" % (lt, lv.float(), lv.float())]
+        L += body_lines(body, lv, "i", m)
+        L += ["for %s i in %s:%s" % (lt, lv.int(), lv.int())]
+        L += body_lines(body, lv, "i", m)
+        L += ["for %s i in [%s]" % (lt, lv.int() if lt == "int" else lv.float()), "    Zgate(%s) | %s" % ("i", m())]
+        pre = [z3.Distinct(modes)] if lv.symbolic and len(modes) > 1 else []
+        return {"text": "\n".join(L) + "\n", "pre": pre, "max_paths": 1500}
     if body == "index":
         L += ["float array A =", "    %s, %s" % (lv.float(), lv.float()), "    %s, %s" % (lv.float(), lv.float())]
     if before:
@@ -108,6 +117,8 @@ def gen_specs(tier, seed):
                 for before in (False, True):
                     for after in afters:
                         specs.append(("range", lt, hopt, body, before, after))
+    for lt, body in ((("int", "mode"), ("float", "args")) if tier == "quick" else (("int", "mode"), ("int", "args"), ("float", "args"), ("int", "mode+args"))):
+        specs.append(("two", lt, None, body, False, "none"))
     lists = {
         "int": [("int",), ("int", "int"), ("int", "intexpr", "int"), ("negint", "int"), ("float",), ("int", "float"), ("str",), ("int", "str"), ("complex",)],
         "float": [("float",), ("float", "int"), ("int", "float", "float"), ("str",), ("complex", "float")],
